@@ -587,3 +587,84 @@ def inline_simple_calls(func: FuncInfo, e: ast.AST, depth: int = 2) -> ast.AST:
 					return n
 			return inline_simple_calls(g, S().visit(copy.deepcopy(ret)), depth - 1)
 	return T().visit(copy.deepcopy(e))
+
+
+def merged_function(func: FuncInfo, depth: int = 2, full: bool = False) -> ast.AST:
+	"""copy of func (alias-expanded; fully inlined with full=True) in which every `return <call of a same-class private helper / nested function>` is replaced
+	by the helper's own (expanded) body with its parameters substituted by the call arguments (`cast(T, x)` arguments stand for x). A branch body that was
+	moved into `__loads_tree(entry)` is then analysed where it is used."""
+	import copy
+	base = FI if full else X
+
+	def helper_of(f: FuncInfo, c: ast.AST):
+		if not isinstance(c, ast.Call):
+			return None
+		g = None
+		if isinstance(c.func, ast.Attribute) and isinstance(c.func.value, ast.Name) and c.func.value.id in ('self', 'cls') and f.cls is not None:
+			g = f.cls.method(c.func.attr)
+			if g is not None and not g.name.startswith('_'):
+				g = None
+		elif isinstance(c.func, ast.Name):
+			g = f.module.functions.get(f'{f.qualname}.<locals>.{c.func.id}')
+		return g if g is not None and g is not f else None
+
+	def inline_in(owner: ast.AST, f: FuncInfo, d: int, stack: tuple) -> None:
+		class T(ast.NodeTransformer):
+			def visit_FunctionDef(self, node):
+				if node is owner:
+					self.generic_visit(node)
+				return node
+
+			def visit_Return(self, node: ast.Return):
+				g = helper_of(f, node.value) if d > 0 else None
+				if g is None or id(g) in stack:
+					return node
+				c = node.value
+				params = [a.arg for a in g.node.args.posonlyargs + g.node.args.args]
+				if params and params[0] in ('self', 'cls') and isinstance(c.func, ast.Attribute):
+					params = params[1:]
+				binding = {}
+				for p_, a in list(zip(params, c.args)) + [(kw.arg, kw.value) for kw in c.keywords if kw.arg]:
+					if isinstance(a, ast.Starred):
+						continue
+					if isinstance(a, ast.Call) and isinstance(a.func, ast.Name) and a.func.id == 'cast' and len(a.args) == 2:
+						a = a.args[1]
+					binding[p_] = a
+
+				class S(ast.NodeTransformer):
+					def visit_Name(self, n: ast.Name):
+						if isinstance(n.ctx, ast.Load) and n.id in binding:
+							return copy.deepcopy(binding[n.id])
+						return n
+				gx = S().visit(copy.deepcopy(base(g)))
+				inline_in(gx, g, d - 1, stack + (id(g),))
+				body = [s_ for s_ in gx.body if not (isinstance(s_, ast.Expr) and isinstance(s_.value, ast.Constant))]
+				for s_ in body:
+					ast.copy_location(s_, s_)
+				return body or [ast.Pass()]
+		T().visit(owner)
+	root = copy.deepcopy(base(func))
+	inline_in(root, func, depth, (id(func),))
+	return ast.fix_missing_locations(root)
+
+
+def split_tuple_assigns(root: ast.AST) -> ast.AST:
+	"""rewrites, in place, `a, b, c = E` into `a = E[0]; b = E[1]; c = E[2]` (and `a, b = x, y` into `a = x; b = y`) when no target is starred: the
+	element-wise reading of a destructuring assignment, so that rules about `t.line = src[0]` also see `t.line, t.column = src`"""
+	import copy
+
+	class T(ast.NodeTransformer):
+		def visit_Assign(self, node: ast.Assign):
+			if len(node.targets) == 1 and isinstance(node.targets[0], (ast.Tuple, ast.List)) and not any(isinstance(e, ast.Starred) for e in node.targets[0].elts):
+				elts = node.targets[0].elts
+				out = []
+				for i, t in enumerate(elts):
+					if isinstance(node.value, (ast.Tuple, ast.List)) and len(node.value.elts) == len(elts):
+						v = node.value.elts[i]
+					else:
+						v = ast.Subscript(value=copy.deepcopy(node.value), slice=ast.Constant(value=i), ctx=ast.Load())
+					out.append(ast.copy_location(ast.Assign(targets=[t], value=v, lineno=node.lineno), node))
+				return out
+			return node
+	T().visit(root)
+	return ast.fix_missing_locations(root)
